@@ -150,9 +150,17 @@ class Token(str):
 
         l_ = str.split(self, sep, maxsplit)
         pos = self.pos
+        offset = 0
         for i, s in enumerate(l_):
-            l_[i] = Token(s, pos, self.source, self.filename)
-            pos += len(s)
+            if sep is None:
+                # runs of whitespace separate the parts; find each part
+                offset = str.find(self, s, offset)
+                l_[i] = Token(s, pos + offset, self.source, self.filename)
+                offset += len(s)
+            else:
+                l_[i] = Token(s, pos + offset, self.source, self.filename)
+                # the separator is part of the source text, too
+                offset += len(s) + len(sep)
         return cast('list[Token]', l_)
 
     def strip(self, chars: str | None = None, /) -> Token:
